@@ -96,10 +96,27 @@ func (r *CfgRun) checkAgainstOwnDump(pid, src string, u *Universe) (skip bool, v
 // with the operators' state threaded through; it returns a violation if the effects or the
 // result of the repeated evaluation differ from the reference.
 func (r *CfgRun) Again(pid, src string, u *Universe, nth int) *Violation {
+	return r.again(pid, src, u, nth, false)
+}
+
+// AgainTry is Again through TryEval, with every variable available.
+func (r *CfgRun) AgainTry(pid, src string, u *Universe, nth int) *Violation {
+	return r.again(pid, src, u, nth, true)
+}
+
+func (r *CfgRun) again(pid, src string, u *Universe, nth int, try bool) *Violation {
 	calls := r.Log.Calls()
 	r.Log.Reset()
 	f := NewFetcher(u, r.Cfg, r.Log)
-	o := Safe(func() (eval.Value, error) { return r.Expr.Eval(f.Ctx()) })
+	o := Safe(func() (eval.Value, error) {
+		if try {
+			return r.Expr.TryEval(f.Ctx())
+		}
+		return r.Expr.Eval(f.Ctx())
+	})
+	if try {
+		pid += " (TryEval, every variable available)"
+	}
 	trace := append([]m.Ev(nil), r.Log.Ev...)
 	ref := &m.Env{Vars: u.Bound(), Fail: u.Fail(), Custom: customModel(), Calls: calls, Fast: r.Fast}
 	rv, rerr := ref.Eval(r.DTree)
